@@ -54,6 +54,19 @@ CHECKS = {
         note="Trusted: Coq kernel + vm_compute; translator gen_emitret.py; hand transcription of the two loops (validated by correspondence); harness. "
              "Handlers returning the internal (SkipAll, x) tuple are outside the fragment; should_propagate_handler_exception is modelled as propagation.",
         ref="DESIGN.md section 7 C04"),
+    "C05": dict(
+        technique="Coq proofs about the runtime fold (a tracer's deliveries stacked = alone; strict stack order; unsubscribed tracers silent) + Coq-verified solo-vs-stacked projection certificates on the real rewriter outputs + solo/stacked/union stream oracle",
+        text="Delivery: C05_emit_observing / C05_solo_delivery / C05_order / C05_unsubscribed_silent / C05_value - for every stack of observing tracers, every handler list and "
+             "every value, the calls one occurrence causes are stack_calls; restricted to tracer k they are exactly the calls it gets as the only tracer; they are strictly "
+             "sorted by (stack position, handler position); derived from model/Rt.v, whose decision functions are regenerated from tracer.py on every run. Rewrite: the "
+             "rewriter is driven by the union of subscriptions; for every tracer i of every generated stack check_proj K_i (output alone) (output stacked) is evaluated in "
+             "coqc on the REAL outputs, and C05_proj_sound turns a passed check into equality of tracer i's stream for every semantics satisfying the stated laws. "
+             "Dynamic: ~40 stacks of 2-3 tracers (overlapping, disjoint, nested, identical subsets; independent guard flags) are run stacked, each tracer alone, and as one "
+             "tracer subscribed to the union: per-tracer streams (event, node, value) must be identical and the global delivery log must be the union stream expanded in "
+             "stack order.",
+        note="Trusted: Coq kernel + vm_compute; model/Rt.v loops tied by C04's correspondence; astexport; the laws of the projection theorem (validated by the oracle). "
+             "Observing, unconditional handlers; all tracers accept the file.",
+        ref="DESIGN.md section 7 C05"),
     "C06": dict(
         technique="Coq proof (invariant + 'a context body restores the state' by induction over history trees) relating the context machine to a stack-of-booleans reference + in-coqc correspondence",
         text="C06_delivery: for every history tree (enabled/disabled/exec-style contexts of any number of AST- and system-level tracers, site executions, "
